@@ -284,7 +284,10 @@ class Tracer:
 
     def _vfield(self, t, variant, name):
         if t[0] == "phi":
-            return _phi([self._vfield(x, variant, name) for x in t[1]])
+            # an alternative built as another variant cannot be the value that is downcast to this one
+            alts = [x for x in t[1] if not (x[0] == "agg" and x[2] and x[2] != variant)]
+            if alts:
+                return _phi([self._vfield(x, variant, name) for x in alts])
         if t[0] == "agg" and t[2] == variant:
             for f, v in t[3]:
                 if f == name:
@@ -399,6 +402,9 @@ class Tracer:
         """branch outcomes that hold on every path from entry to block bb, as normalised predicates:
            ('bool', term, True|False) / ('variant', term, name) / ('notvariant', term, (names)) /
            ('inteq', term, v) / ('intne', term, (vs))"""
+        return self._guards_at(bb, frozenset())
+
+    def _guards_at(self, bb, seen):
         out = []
         for (s, d, label) in self.cfg.dominating_edges(bb):
             if label is None:
@@ -407,7 +413,56 @@ class Tracer:
             if t.kind != "switch":
                 continue
             out.extend(self.edge_pred(t, label))
+            # `let v = match c { A => Some(..), B => None }; if let Some(..) = v`: the arm taken tells which assignment
+            # of v ran last, hence that its block was passed — everything known there is known here
+            db = self._implied_def_block(s, label)
+            if db is not None and db not in seen and db != bb:
+                for g in self._guards_at(db, seen | {bb, db}):
+                    if g not in out:
+                        out.append(g)
         return out
+
+    def _implied_def_block(self, s, label):
+        """block of the single whole-value assignment `x = Variant(..)` that can have produced the variant selected by
+        this edge of `switch discriminant(x)`; None unless x is a local assigned only by enum aggregates of known variant
+        (never by a call, through a projection, or behind a mutable borrow)"""
+        blk = self.body.blocks[s]
+        t = blk.term
+        if t.discr is None or t.discr.place is None or not t.discr.place.is_local():
+            return None
+        dl = t.discr.place.local
+        x = names = None
+        for st in blk.stmts:
+            if st.kind == "assign" and st.lhs.is_local() and st.lhs.local == dl and st.rv.kind == "discr" and st.rv.place.is_local():
+                x, names = st.rv.place.local, st.rv.j.get("variants") or []
+        if x is None or not names:
+            return None
+        if label[0] == "eq":
+            want = {names[label[1]]} if label[1] < len(names) else set()
+        else:
+            want = set(names) - {names[v] for v in label[1] if v < len(names)}
+        if x <= self.body.arg_count:
+            return None
+        defs = []
+        for b2 in self.body.blocks:
+            if b2.cleanup:
+                continue
+            for st in b2.stmts:
+                if st.kind != "assign":
+                    continue
+                if st.rv.kind in ("ref", "rawptr") and st.rv.place is not None and st.rv.place.local == x and getattr(st.rv, "mut", False):
+                    return None
+                if st.lhs.local == x:
+                    if not st.lhs.is_local() or st.rv.kind != "agg" or st.rv.agg.get("kind") != "adt" or not st.rv.agg.get("variant"):
+                        return None
+                    defs.append((b2.idx, st.rv.agg["variant"]))
+            t2 = b2.term
+            if t2.kind == "call" and t2.dest is not None and t2.dest.local == x:
+                return None
+        hit = [d for d, v in defs if v in want]
+        if len(hit) != 1 or not defs:
+            return None
+        return hit[0]
 
     def path_guard_sets(self, bb, limit=400):
         """one guard list per acyclic entry->bb path (None if there are too many paths)"""
@@ -645,3 +700,14 @@ def fmt_guard(g):
     if g[0] == "intne":
         return "%s not in %s" % (fmt(g[1]), list(g[2]))
     return str(g)
+
+
+def passthrough_of(t):
+    """the term whose result a return case hands on unchanged: t itself, or X for the two halves of `let v = X?; Ok(v)`
+    (`Ok{0: okval(X)}` and `from_residual(errval(X))` — the conversion `?` applies is the identity when the error types agree,
+    and is fixed by the type checker otherwise)"""
+    if t[0] == "agg" and t[2] in ("Ok",) and len(t[3]) == 1 and t[3][0][1][0] == "okval":
+        return t[3][0][1][1]
+    if t[0] == "call" and t[1].split("::")[-1] == "from_residual" and len(t[2]) == 1 and t[2][0][0] == "errval":
+        return t[2][0][1]
+    return t
